@@ -399,6 +399,27 @@ impl Prop for C03 {
                 },
             ));
         }
+        f.push(Family::new(
+            "repeated-first-word-and-notes",
+            Mode::Full,
+            "(a) a multi-word name used directly behind one more copy of its own first word(s) ('a a b = 7 / 2 * a a a b', 'net net income = 40 / 2 * net net net income', 'tax rate = 20 / tax tax rate + 1', 'cost per unit = 4 / cost per cost per unit * 10'): the same slots as the program written with a plain name in place of the name; (b) a name bound to money, a number or a percentage used in front of a '/word' note ('rate = $25 / rate/hour * 8'): the same slots as the line with the literal in place of the name",
+            move |ch| {
+                let pairs: [(&[&str], &[&str]); 10] = [
+                    (&["a a b = 7", "2 * a a a b"], &["alpha beta = 7", "2 * a alpha beta"]),
+                    (&["net net income = 40", "margin = 10", "2 * net net net income"], &["alpha beta = 40", "margin = 10", "2 * net alpha beta"]),
+                    (&["tax rate = 20", "tax tax rate + 1"], &["alpha beta = 20", "tax alpha beta + 1"]),
+                    (&["cost per unit = 4", "cost per cost per unit * 10"], &["alpha beta = 4", "cost per alpha beta * 10"]),
+                    (&["a b = 3", "a b a b + a a b"], &["alpha beta = 3", "alpha beta alpha beta + a alpha beta"]),
+                    (&["rate = $25", "rate/hour * 8"], &["rate = $25", "$25/hour * 8"]),
+                    (&["fee = 10 eur", "fee = fee + 5 eur", "fee/month * 12"], &["fee = 10 eur", "fee = fee + 5 eur", "15 eur/month * 12"]),
+                    (&["hourly rate = $40", "week = hourly rate/hour * 35", "week"], &["hourly rate = $40", "week = $40/hour * 35", "week"]),
+                    (&["n = 12", "n/item * 3"], &["n = 12", "12/item * 3"]),
+                    (&["p = 15%", "200 + p/year"], &["p = 15%", "200 + 15%/year"]),
+                ];
+                let (a, b) = *ch.pick(&pairs);
+                Some(Case { lines: a.iter().map(|s| s.to_string()).collect(), bfs: None, plain: Some(b.iter().map(|s| s.to_string()).collect()) })
+            },
+        ));
         {
             const ZW_LINES: [&str; 12] = ["CAT food = 5", "cat food = 7", "cat food + 1", "Cat Food * 2", "CAT FOOD", "West Wing = 12", "WEST wing = 20", "west wing", "cat food = cat food + 1", "b = Cat food", "art budget = 100", "ART BUDGET = art budget + 50"];
             let dz = tier.pick(3, 4);
